@@ -311,6 +311,49 @@ def family_S(r, width=6, maxn=4, base=None, renames=False):
     return out
 
 
+def family_M(r, nmax=3, full=False):
+    """Mixes of implicit and explicit discriminants: every sequence of <= nmax variants, each implicit or
+    explicit with a value of a small boundary set, kept iff it is valid Rust inside the documented domain."""
+    signed = REPRS[r][1]
+    vs = [lo(r), -2, -1, 0, 1, 2, hi(r) - 1, hi(r)] if full else [lo(r), -2, 0, 1, hi(r) - 1]
+    vs = [v for i, v in enumerate(vs) if rmin(r) <= v <= rmax(r) and v not in vs[:i]]
+    out = []
+    for n in range(1, nmax + 1):
+        for combo in itertools.product([None] + vs, repeat=n):
+            if all(c is not None for c in combo) and n > 1:
+                continue        # all-explicit shapes are family F's business
+            variants = [Variant("V%d" % i, lit=None if c is None else str(c),
+                                rename=AWKWARD[(i + len(out)) % len(AWKWARD)] if (i + len(out)) % 4 == 1 else None)
+                        for i, c in enumerate(combo)]
+            d = EnumDecl(r, variants, tag={"family": "M(%d)" % nmax, "pattern": ["_" if c is None else c for c in combo]})
+            if d.in_domain:
+                out.append(d)
+    return out
+
+
+def family_A(r):
+    """Truncation / sign aliases: discriminants that coincide when narrowed to 8, 16 or 32 bits or when the sign bit
+    is dropped (a sort key, index or comparison computed through a too-narrow type confuses them)."""
+    bits, signed = REPRS[r]
+    sets = []
+    for sh in (8, 16, 32):
+        if sh < bits:
+            top = sh + 1 < bits - (1 if signed else 0)
+            sets.append([3, 3 + (1 << sh)] + ([3 + (2 << sh)] if top else []))
+            sets.append([0, 1 << sh, 1, (1 << sh) + 1])
+            if signed:
+                sets.append([-1, (1 << sh) - 1, -(1 << sh) - 1 if -(1 << sh) - 1 >= rmin(r) else -2])
+                sets.append([-(1 << sh), 0, 1 << sh] if (1 << sh) <= hi(r) else [-(1 << sh), 0])
+    out = []
+    for i, vs in enumerate(sets):
+        vs = [v for j, v in enumerate(vs) if lo(r) <= v <= hi(r) and v not in vs[:j]]
+        if len(vs) < 2:
+            continue
+        perm = scramble(len(vs))
+        out.append(make_decl(r, [sorted(vs)[j] for j in perm], salt=i, tag={"family": "A", "set": sorted(vs)}))
+    return out
+
+
 def boundary_values(decl):
     """B(E,R) of DESIGN.md §4 clipped to the repr: every constant generated comparisons can mention,
     both neighbours of every run boundary, and truncation / sign aliases of members."""
